@@ -13,6 +13,15 @@ CHECKS = {
     "C01": (EX, "bounded-exhaustive enumeration of all conversion paths of length <= 2 over the shipped tables + exact rational check of the written coefficients",
             "Every ordered unit pair (quick: plus two intermediate units per pair; thorough: every ordered triple) of every quantity type of the three shipped fillers is executed on the real Convert over a 11+3k value alphabet; round trip, path independence, same-unit identity and strict monotonicity are judged metamorphically, and inverse-ness of every row is decided exactly from its coefficients. Complete for the finite table; values are an alphabet.",
             "floats outside the alphabet not covered (rows are affine: two points determine the map; coefficients compared exactly); tolerance 1e-12 on the base-unit scale"),
+    "C03": (MC, "explicit-state BFS over the algebra of derived quantities on the real operators; all same-dimension ordered state pairs judged by an exact dimensional-analysis model",
+            "States are derived Scalars reached by real * and / from 8 (category, unit) atoms (two categories per type, two units per type), de-duplicated on the ordered composing map; for every ordered pair of states with equal dimension vector a+b, a-b, b+a, (a+b)-b run on Scalar and on Array (list/tuple/ndarray) and are compared with the dims model; all ordered unit pairs of all 191 quantity types cover the exponent-1 clause incl. affine units. Exhaustive to depth 2 (quick) / 3 (thorough).",
+            "histories deeper than the bound and values outside the two value assignments are not covered; db.Convert is the reference for re-expression in the simple part (judged by C01/C02)"),
+    "C04": (MC, "explicit-state BFS over the algebra of derived quantities on the real operators; every transition and every ordered state pair judged by an exact dimensional-analysis model",
+            "Every transition of the depth-3 (quick) / depth-4 (thorough) state graph and every ordered pair of depth-2 (quick) / depth-3 (thorough) states is executed through a*b, a/b, a//b, (a*b)/b, a/a, a**1..3 on Scalar, Array[list], Array[ndarray] and the Quantity operators; dimension exponents, absence of zero exponents and base-unit magnitudes are compared with the dims model (exact rationals from the table's coefficients).",
+            "scale-only units and non-zero values as the property states; depth bound; two value assignments"),
+    "C20": (MC, "explicit-state BFS over products/quotients of atomic units; every rendered string parsed back with an independent grammar",
+            "Every transition of the depth-3 (quick) / depth-4 (thorough) graph over 10 atomic (category, unit) atoms renders unit, category, quantity-type and unit-name strings that are parsed by an independent implementation of the table's symbol grammar and compared with the composing map; all 6322 (unit, category) pairs of the table are checked as simple quantities incl. repr/str of Scalar and Array.",
+            "atomic composing symbols only (as the property states); depth bound"),
 }
 
 NOT_YET = {}
